@@ -204,14 +204,14 @@ def check_case(ref, prefs, owners, case):
 def encode(prefs, p):
     for n, pr in prefs.items():
         if n:
-            p = p.replace(pr.root(), "<" + n + ">")
+            p = p.replace(pr.root(), "<" + n + ">").replace(pr.root().replace("/", "\\"), "<" + n + "\\>")   # (also the backslash spelling)
     return p
 
 
 def decode(prefs, p):
     for n, pr in prefs.items():
         if n:
-            p = p.replace("<" + n + ">", pr.root())
+            p = p.replace("<" + n + "\\>", pr.root().replace("/", "\\")).replace("<" + n + ">", pr.root())
     return p
 
 
